@@ -310,6 +310,20 @@ func TestSim(t *testing.T) {
 		tier = "quick"
 	}
 
+	if dr := os.Getenv("VERIF_DUMP_RUN"); dr != "" {
+		n, _ := strconv.Atoi(dr)
+		sc := generate(prop, seed, n, tier)
+		out := execute(t, sc, true)
+
+		for _, ln := range out.Trace {
+			fmt.Println(ln)
+		}
+
+		fmt.Printf("HASH %x SIG %x internal=%q\n", out.Hash, out.SchedSig, out.Internal)
+
+		return
+	}
+
 	if gens[prop] == nil {
 		fmt.Printf("INTERNAL no generator for property %s\n", prop)
 		t.Fatalf("no generator for property %s", prop)
